@@ -675,6 +675,153 @@ macro_rules! e_fe_cfg {
     };
 }
 
+// =============================================================== unit level (C06): fully symbolic reply headers
+// The endpoint state is built on the stack (no Arc), so symbolic control words are affordable here.
+fn mk_internal() -> ManuallyDrop<FrontendInternal> {
+    ManuallyDrop::new(FrontendInternal {
+        // SAFETY: descriptor 5 is never used for real I/O
+        main_sock: Endpoint::<VhostUserMsgHeader<FrontendReq>>::from_stream(unsafe { UnixStream::from_raw_fd(5) }),
+        virtio_features: kani::any(),
+        acked_virtio_features: kani::any(),
+        protocol_features: kani::any(),
+        acked_protocol_features: kani::any(),
+        protocol_features_ready: kani::any(),
+        max_queue_num: kani::any(),
+        error: None,
+        hdr_flags: VhostUserHeaderFlag::empty(),
+    })
+}
+macro_rules! u_fe {
+    ($(#[$m:meta])* fn $name:ident() $body:block) => {
+        $(#[$m])*
+        #[kani::proof]
+        #[kani::unwind(5)]
+        #[kani::stub(vmm_sys_util::sock_ctrl_msg::raw_recvmsg, g::ghost_recvmsg)]
+        #[kani::stub(vmm_sys_util::sock_ctrl_msg::raw_sendmsg, g::ghost_sendmsg)]
+        #[kani::stub(<std::os::fd::OwnedFd as std::ops::Drop>::drop, g::ghost_ownedfd_drop)]
+        #[kani::stub(std::alloc::handle_alloc_error, g::ghost_alloc_error)]
+        fn $name() $body
+    };
+}
+
+// @harness props=C06,C20 tier=quick native=yes bound="is_reply_for: all pairs of (request, flags) words of reply and request headers (2^128)" stubs="-"
+#[kani::proof]
+fn c06_u_is_reply_for() {
+    let (rc, rf, qc, qf): (u32, u32, u32, u32) = (kani::any(), kani::any(), kani::any(), kani::any());
+    let mut rb = [0u8; 12];
+    let mut qb = [0u8; 12];
+    spec::wr32(&mut rb, 0, rc);
+    spec::wr32(&mut rb, 4, rf);
+    spec::wr32(&mut qb, 0, qc);
+    spec::wr32(&mut qb, 4, qf);
+    // SAFETY: 12 bytes of plain old data
+    let r: VhostUserMsgHeader<FrontendReq> = unsafe { core::ptr::read_unaligned(rb.as_ptr() as *const _) };
+    let q: VhostUserMsgHeader<FrontendReq> = unsafe { core::ptr::read_unaligned(qb.as_ptr() as *const _) };
+    let exp = spec::frontend_code_known(rc) && rc == qc && rf & spec::F_REPLY != 0 && qf & spec::F_REPLY == 0;
+    kani::cover!(r.is_reply_for(&q));
+    assert!(r.is_reply_for(&q) == exp, "C06: a header answers a request iff REPLY is set on it (and not on the request) and the request codes are equal and known");
+}
+
+// @harness props=C06,C03 tier=quick reach=off timeout=600 bound="FrontendInternal::recv_reply<u64> for a GET_FEATURES request: reply header words (request, flags, size) FULLY symbolic, body symbolic, 0..=2 descriptors" stubs="raw_recvmsg/raw_sendmsg (ghost socket), OwnedFd::drop, handle_alloc_error"
+u_fe! { fn c06_u_recv_reply_u64() {
+    let mut n = mk_internal();
+    let req = VhostUserMsgHeader::<FrontendReq>::new(FrontendReq::GET_FEATURES, 0, 0);
+    let (rc, rf, rs): (u32, u32, u32) = (kani::any(), kani::any(), kani::any());
+    let val: u64 = kani::any();
+    let nfds: usize = kani::any();
+    kani::assume(nfds <= 2);
+    // SAFETY: ghost state
+    unsafe {
+        g::put_hdr(0, rc, rf, rs);
+        g::put64(12, val);
+        g::G.rx_len = 20;
+        g::G.rx_closed = true;
+        g::G.rx_nfds = nfds;
+    }
+    let r = n.recv_reply::<VhostUserU64>(&req);
+    kani::cover!(r.is_ok());
+    let hdr_ok = rc == spec::fe::GET_FEATURES && rf & spec::F_REPLY != 0 && spec::valid_header(true, rf, rs);
+    if let Ok(v) = &r {
+        assert!(hdr_ok && nfds == 0, "C06: accepted bytes that are not a reply to this request");
+        assert!(v.value == val, "C03: value returned = value replied");
+    }
+    if hdr_ok && nfds == 0 {
+        assert!(r.is_ok(), "C03: a valid reply must be accepted");
+    }
+    // SAFETY: ghost state
+    unsafe { assert!(!g::G.double_close && (r.is_ok() || (g::G.fd_state[0] != g::FD_OPEN && g::G.fd_state[1] != g::FD_OPEN)), "C09: descriptors of a refused reply are closed") };
+    std::mem::forget(r);
+} }
+
+// @harness props=C06,C03 tier=quick reach=off timeout=600 bound="FrontendInternal::wait_for_ack for a SET_VRING_NUM request: ack header words FULLY symbolic, value symbolic, 0..=2 descriptors, REPLY_ACK / NEED_REPLY symbolic" stubs="raw_recvmsg/raw_sendmsg (ghost socket), OwnedFd::drop, handle_alloc_error"
+u_fe! { fn c06_u_wait_for_ack() {
+    let mut n = mk_internal();
+    let need_reply: bool = kani::any();
+    let req = VhostUserMsgHeader::<FrontendReq>::new(FrontendReq::SET_VRING_NUM, if need_reply { 0x8 } else { 0 }, 8);
+    let (rc, rf, rs): (u32, u32, u32) = (kani::any(), kani::any(), kani::any());
+    let val: u64 = kani::any();
+    let nfds: usize = kani::any();
+    kani::assume(nfds <= 2);
+    // SAFETY: ghost state
+    unsafe {
+        g::put_hdr(0, rc, rf, rs);
+        g::put64(12, val);
+        g::G.rx_len = 20;
+        g::G.rx_closed = true;
+        g::G.rx_nfds = nfds;
+    }
+    let waits = need_reply && n.acked_protocol_features & pf::REPLY_ACK != 0;
+    let r = n.wait_for_ack(&req);
+    kani::cover!(r.is_ok() && waits);
+    // SAFETY: ghost state
+    unsafe {
+        if !waits {
+            assert!(r.is_ok() && g::G.rx_calls == 0, "C18/C03: no acknowledgement awaited unless negotiated and requested");
+        } else {
+            let hdr_ok = rc == spec::fe::SET_VRING_NUM && rf & spec::F_REPLY != 0 && spec::valid_header(true, rf, rs);
+            if r.is_ok() {
+                assert!(hdr_ok && nfds == 0 && val == 0, "C06/C03: success only for a zero ack answering this request");
+            }
+            if hdr_ok && nfds == 0 {
+                assert!(r.is_ok() == (val == 0), "C03: ack value 0 <=> success");
+            }
+        }
+    }
+    std::mem::forget(r);
+} }
+
+// @harness props=C06,C03,C09 tier=quick reach=off timeout=600 bound="FrontendInternal::recv_reply_with_files<inflight> for a GET_INFLIGHT_FD request: reply header words FULLY symbolic, 24 body bytes symbolic, 0..=2 descriptors" stubs="raw_recvmsg/raw_sendmsg (ghost socket), OwnedFd::drop, handle_alloc_error"
+u_fe! { fn c06_u_recv_reply_with_files() {
+    let mut n = mk_internal();
+    let req = VhostUserMsgHeader::<FrontendReq>::new(FrontendReq::GET_INFLIGHT_FD, 0, 24);
+    let (rc, rf, rs): (u32, u32, u32) = (kani::any(), kani::any(), kani::any());
+    let body: [u8; 24] = kani::any();
+    let nfds: usize = kani::any();
+    kani::assume(nfds <= 2);
+    // SAFETY: ghost state
+    unsafe {
+        g::put_hdr(0, rc, rf, rs);
+        g::put64(12, spec::rd64(&body, 0));
+        g::put64(20, spec::rd64(&body, 8));
+        g::put64(28, spec::rd64(&body, 16));
+        g::G.rx_len = 36;
+        g::G.rx_closed = true;
+        g::G.rx_nfds = nfds;
+    }
+    let r = n.recv_reply_with_files::<VhostUserInflight>(&req);
+    kani::cover!(r.is_ok());
+    let hdr_ok = rc == spec::fe::GET_INFLIGHT_FD && rf & spec::F_REPLY != 0 && spec::valid_header(true, rf, rs);
+    if let Ok((v, files)) = &r {
+        assert!(hdr_ok && spec::valid_inflight(&body), "C06: accepted bytes that are not a valid reply to this request");
+        assert!(files.as_ref().map_or(0, |f| f.len()) == nfds && nfds >= 1, "C06: descriptors present");
+        assert!(v.mmap_size == spec::rd64(&body, 0) && v.mmap_offset == spec::rd64(&body, 8) && v.num_queues == spec::rd16(&body, 16) && v.queue_size == spec::rd16(&body, 18), "C03/C01: decoded reply = wire bytes");
+    }
+    if hdr_ok && spec::valid_inflight(&body) && nfds >= 1 {
+        assert!(r.is_ok(), "C03: a valid reply must be accepted");
+    }
+    std::mem::forget(r);
+} }
+
 // ==== generated by tools/gen_e_fe.py ====
 // @harness props=C01,C02,C03,C06,C10 tier=quick reach=off timeout=500 bound="Frontend::get_features: all argument values, five 64-bit negotiation/limit words, NEED_REPLY on/off, peer reply header of one concrete class (conformant unless named in the harness), 40 symbolic body bytes, 0..=2 descriptors; one call" stubs="vmm-sys-util raw_recvmsg/raw_sendmsg (ghost stream socket), libc::close + OwnedFd::drop (ghost descriptor table), handle_alloc_error (assume false)"
 e_fe!(e_fe_get_features, 1, 0);
